@@ -83,7 +83,17 @@ def _run_one(idx, case):
         res2 = _exec_case(mod, case)
         if res2.get("digest") != res.get("digest") or \
                 [v["oracle"] for v in res2["viol"]] != [v["oracle"] for v in res["viol"]]:
-            res["nondeterministic"] = True
+            if res["viol"] or res2["viol"]:
+                # the library answered differently on an immediate re-execution in the same process AND at least one
+                # of the two executions violates the property: hidden process state in the code under test, not a
+                # harness problem - report the violations (of whichever execution has them)
+                if not res["viol"]:
+                    res["viol"] = res2["viol"]
+                    res["outcome"] = res2["outcome"]
+                for v in res["viol"]:
+                    v["detail"] = str(v.get("detail", "")) + " [result differs between two executions in one process]"
+            else:
+                res["nondeterministic"] = True
         res["replayed"] = True
     return res
 
